@@ -9,11 +9,14 @@
    union containing itself (also through an extension), a repeated enum value, a scalar without
    implementation and a non-awaitable directive hook each make the build fail; the engine's
    interface field-type check is exactly the specification's covariance rule (IsValidImplementationFieldType).
-   PARTIAL: completeness for the remaining interface clauses (missing field / argument, extra
-   required argument, non-interface) and for every kind of invalid extension is decided per
-   rewritten model by the check (specification predicates in Coq vs create_engine), not proved. *)
+   Also proved (Proofs/SchemaInterfaces.v): an object that does not honour an interface it declares (missing
+   field, field type not a valid implementation type, interface argument missing or of another type, an
+   additional required argument, `implements` naming an undefined type or a non-interface) is refused, for
+   every schema whose interface fields do not use the reserved meta-field names.
+   PARTIAL: completeness for every kind of invalid extension is decided per rewritten model by the check
+   (specification predicates in Coq vs create_engine), not proved. *)
 From Coq Require Import ZArith List String Bool.
-From TV Require Import Py.Prelude Model.Schema Model.ImplValidate Model.SchemaBuild Model.SpecSchema Proofs.SchemaProofs
+From TV Require Import Py.Prelude Model.Schema Model.ImplValidate Model.SchemaBuild Model.SpecSchema Proofs.SchemaProofs Proofs.SchemaInterfaces
      Gen.Wiring_gen Proofs.Wiring.
 Import ListNotations.
 Open Scope string_scope.
@@ -32,6 +35,17 @@ Proof. exact (defect_rejected g). Qed.
 Theorem C12_interface_type_check_exact g ft it :
   same_as_interface_type g ft it = Some (valid_impl_type g ft it).
 Proof. exact (interface_type_check_exact g ft it). Qed.
+
+(* the interface clauses: whatever the specification's "object honours its interfaces" rejects, the build refuses *)
+Theorem C12_unhonoured_interface_rejected s g0 :
+  initial s = inl g0 ->
+  (forall i, iface_fields_plain (fold_left apply_ext (s_exts s) g0) i) ->
+  v_interface_not_honoured (fold_left apply_ext (s_exts s) g0) = true -> builds s = false.
+Proof. exact (build_rejects_unhonoured_interfaces s g0). Qed.
+
+Theorem C12_validator_reports_unhonoured_interfaces g :
+  (forall i, iface_fields_plain g i) -> v_interface_not_honoured g = true -> v_follow_interfaces g <> Some [].
+Proof. exact (interfaces_not_honoured_reported g). Qed.
 
 (* tie to the current source (regenerated on every run): the validator lists and the order of the
    steps of GraphQLSchema.bake are the ones the build model transcribes *)
@@ -57,3 +71,5 @@ Print Assumptions C12_duplicate_definitions_rejected.
 Print Assumptions C12_defective_schema_rejected.
 Print Assumptions C12_validators_report_defects.
 Print Assumptions C12_interface_type_check_exact.
+Print Assumptions C12_unhonoured_interface_rejected.
+Print Assumptions C12_validator_reports_unhonoured_interfaces.
